@@ -11,3 +11,4 @@ import Sheens.SioCrew
 import Sheens.MatchSpecC
 import Sheens.MCrew
 import Sheens.Timers
+import Sheens.Expect
